@@ -13,17 +13,17 @@ case $pkg in
   *) echo "unknown demo package $pkg"; exit 2;;
 esac
 a=$(mktemp -d /tmp/seedA.XXXX); b=$(mktemp -d /tmp/seedB.XXXX)
-trap 'rm -rf "$a" "$b"' EXIT
+trap 'rm -rf "$a" "$b" "$a.log" "$b.log"' EXIT
 rsync -a --exclude .git /repo/ $a/; rsync -a --exclude .git /repo/ $b/
 (cd $b && patch -p1 -s -f --no-backup-if-mismatch -i $SRC/patch.diff) || { echo "FAIL: patch does not apply"; exit 1; }
 (cd $b && go build ./...) || { echo "FAIL: does not build"; exit 1; }
-/verif/tools/baseline.sh $b || { echo "FAIL: baseline tests fail with the patch"; exit 1; }
+/verif/tools/baseline.sh $b || /verif/tools/baseline.sh $b || { echo "FAIL: baseline tests fail with the patch"; exit 1; }
 cp $demo $a/$dir/zz_seed_demo_test.go; cp $demo $b/$dir/zz_seed_demo_test.go
 names=$(grep -o '^func Test[A-Za-z0-9_]*' $demo | sed 's/func //' | paste -sd'|')
-(cd $a && timeout 600 go test -vet=off -count=1 -run "^($names)\$" ./$dir/ >/tmp/seed_a.log 2>&1); ra=$?
-(cd $b && timeout 600 go test -vet=off -count=1 -run "^($names)\$" ./$dir/ >/tmp/seed_b.log 2>&1); rb=$?
+(cd $a && timeout 600 go test -vet=off -count=1 -run "^($names)\$" ./$dir/ >$a.log 2>&1); ra=$?
+(cd $b && timeout 600 go test -vet=off -count=1 -run "^($names)\$" ./$dir/ >$b.log 2>&1); rb=$?
 echo "demo without patch: exit $ra; with patch: exit $rb"
-if [ $ra -ne 0 ] || [ $rb -eq 0 ]; then echo "FAIL: demo does not discriminate"; tail -5 /tmp/seed_a.log /tmp/seed_b.log; exit 1; fi
+if [ $ra -ne 0 ] || [ $rb -eq 0 ]; then echo "FAIL: demo does not discriminate"; tail -5 $a.log $b.log; exit 1; fi
 out=/verif/seeded/$P-$M; mkdir -p $out
 cp $SRC/patch.diff $out/patch.diff; cp $demo $out/$(basename $demo); cp $SRC/notes.md $out/notes.md 2>/dev/null
 python3 - "$P" "$M" "$dir" "$names" <<'PY'
